@@ -1,6 +1,8 @@
 (* C02 -- a granted placement has exactly the requested shape.  Statements only. *)
 From Coq Require Import ZArith List Bool.
 From RP Require Import Sched.Model Sched.NodeMap Sched.FindProofs Sched.Inv Sched.SchedProofs Sched.ShapeProofs.
+From Coq Require String.
+From RP Require AppSlots.Model AppSlots.Oracle AppSlots.NodeProofs AppSlots.InvProofs AppSlots.Proofs.
 Import ListNotations.
 Open Scope Z_scope.
 
@@ -65,3 +67,52 @@ Example C02_nonvacuous :
                mkSlot 1 [0%nat; 1%nat] [(1%nat, 32)] 10 0;
                mkSlot 1 [2%nat; 3%nat] [(1%nat, 32)] 10 0]).
 Proof. vm_compute. reflexivity. Qed.
+
+Module AppSide.
+Import Coq.Strings.String.
+Import RP.AppSlots.Model RP.AppSlots.Oracle RP.AppSlots.NodeProofs RP.AppSlots.InvProofs RP.AppSlots.Proofs.
+Open Scope string_scope.
+Open Scope Z_scope.
+
+(* Application side: `Pilot.nodelist` (resource_config.NodeList / Node), the helper with which an
+   application chooses the placements it supplies in TaskDescription.slots.  Model: RP.AppSlots.Model;
+   occupations in 1/64 of a core / GPU (BUSY = 64).
+
+   wf_nodes ns0     : the node list as Pilot.nodelist builds it from the agent's resource details --
+                      node ids are the list positions, lfs / mem are numbers >= 0, every core / GPU
+                      is DOWN or occupied between FREE and BUSY;
+   op_ok            : the calls are find_slots / release_slots / verify / Node.find_slot with
+                      non-negative sizes and occupations (find_slots: core occupation > 0);
+   all_disciplined  : release_slots is given slots the application holds (got from find_slots and
+                      not yet given back), counting repetitions;
+   run .. ops       : the answer and the node list after every call (any number of calls);
+   judge            : the clauses the check evaluates on the real objects' trace. *)
+
+(* Every answer of find_slots(rr, n) that is not None / an error is a list of exactly n slots, each on
+   ONE node of the list and carrying that node's id and name, with exactly rr.n_cores distinct existing
+   cores at occupation rr.core_occupation, exactly rr.n_gpus distinct existing GPUs at
+   rr.gpu_occupation, lfs = rr.lfs and mem = rr.mem -- after ANY sequence of calls *)
+Theorem C02_app_slots_have_requested_shape :
+  forall (ns0 : list node) (verified : bool) (ops : list op),
+    wf_nodes ns0 -> Forall op_ok ops ->
+    all_disciplined [] ops (run (start_nl ns0 verified) ops) = true ->
+    v_shape (judge ns0 ns0 [] ops (run (start_nl ns0 verified) ops)) = true.
+Proof. exact app_shape. Qed.
+Print Assumptions C02_app_slots_have_requested_shape.
+
+(* the same for one call in any reached state *)
+Theorem C02_app_found_slots_shape :
+  forall (ns0 : list node) (nl : nlist) (h : list slot) (r : rreq) (n : Z) (nl' : nlist) (sl : list slot),
+    Reached ns0 nl h -> rr_ok r -> 0 < r_co r -> find_slots nl r n = (nl', RSlots sl) ->
+    ok_shape ns0 r n sl = true.
+Proof. exact found_slots_shape. Qed.
+Print Assumptions C02_app_found_slots_shape.
+
+Example C02_app_nonvacuous :
+  let ns0 := [mkNode 0 "a" [Some 64; Some 0; None; Some 32] [Some 0; Some 0] (Some 100) (Some 50);
+              mkNode 1 "b" [Some 64; Some 0; None; Some 32] [Some 0; Some 0] (Some 100) (Some 50)] in
+  snd (find_slots (start_nl ns0 true) (mkRR 2 32 1 64 40 5 false) 2)
+  = RSlots [mkSlot [(1, 32); (3, 32)] [(0, 64)] 40 5 0 "a"; mkSlot [(1, 32); (3, 32)] [(0, 64)] 40 5 1 "b"].
+Proof. vm_compute. reflexivity. Qed.
+
+End AppSide.
